@@ -5,6 +5,7 @@ package ssh
 import (
 	"io"
 	"net"
+	"sync/atomic"
 )
 
 // Hooks for the /verif harness, property C31 (re-keying under concurrent traffic). Add-only; -tags verif.
@@ -39,6 +40,47 @@ func VerifNewServerHandshakeRec(conn io.ReadWriteCloser, clientVersion, serverVe
 	}
 	tr := newTransport(conn, conf.Rand, false)
 	t := newServerTransport(&verifRecTransport{tr, rec}, clientVersion, serverVersion, &conf)
+	return &VerifHandshake{t: t, tr: tr}
+}
+
+// verifRecTransport2 additionally reports the write budgets (writeBytesLeft, writePacketsLeft) as they are when
+// the packet is pushed: pushes happen under t.mu or, from enterKeyExchange, while no writer can touch them.
+type verifRecTransport2 struct {
+	*transport
+	t   atomic.Pointer[handshakeTransport]
+	rec func(packet []byte, writeBytesLeft int64, writePacketsLeft uint32)
+}
+
+func (r *verifRecTransport2) writePacket(p []byte) error {
+	if t := r.t.Load(); t != nil {
+		r.rec(p, t.writeBytesLeft, t.writePacketsLeft)
+	} else {
+		r.rec(p, 0, 0)
+	}
+	return r.transport.writePacket(p)
+}
+
+// VerifNewClientHandshakeRec2 / VerifNewServerHandshakeRec2: as the Rec variants, with the budgets reported.
+func VerifNewClientHandshakeRec2(conn io.ReadWriteCloser, clientVersion, serverVersion []byte, config *ClientConfig, rec func([]byte, int64, uint32)) *VerifHandshake {
+	conf := *config
+	conf.SetDefaults()
+	tr := newTransport(conn, conf.Rand, true)
+	rt := &verifRecTransport2{transport: tr, rec: rec}
+	t := newClientTransport(rt, clientVersion, serverVersion, &conf, "verif:22", &net.TCPAddr{IP: net.IPv4(127, 0, 0, 1), Port: 22})
+	rt.t.Store(t)
+	return &VerifHandshake{t: t, tr: tr}
+}
+
+func VerifNewServerHandshakeRec2(conn io.ReadWriteCloser, clientVersion, serverVersion []byte, config *ServerConfig, rec func([]byte, int64, uint32)) *VerifHandshake {
+	conf := *config
+	conf.SetDefaults()
+	if len(conf.PublicKeyAuthAlgorithms) == 0 {
+		conf.PublicKeyAuthAlgorithms = defaultPubKeyAuthAlgos
+	}
+	tr := newTransport(conn, conf.Rand, false)
+	rt := &verifRecTransport2{transport: tr, rec: rec}
+	t := newServerTransport(rt, clientVersion, serverVersion, &conf)
+	rt.t.Store(t)
 	return &VerifHandshake{t: t, tr: tr}
 }
 
